@@ -25,7 +25,8 @@
   * `touchesFixture`     the decidable side condition of the harness's steering (`props/_stateful.steer`):
                          `remove / removedir / removetree / move / movedir` whose (first) path is a fixture or an
                          ancestor of one;
-  * `noNulOp`            no path argument contains NUL (see `mount_nul_*` below: an open finding);
+  * (`noNulOp`, no path argument contains NUL, is only what a MountFS promises its MEMBERS — `PrimRefines` —: since
+                         /repo 48e26ed `_delegate` refuses such a path itself, and (b) holds for EVERY path string);
   * `ProgOk`, `PrimSem`  the same refinement statement for a program over refining primitives.
 -/
 import FsModel.MountFs
@@ -55,11 +56,11 @@ theorem mount_delegate_spec {σ : Type} {K : Kind σ} {mps : List (List Name)} {
       | none => .ok (0, p) :=
   delegate_spec hinv hv
 
-/-- … and a path that cannot be normalised is refused by `_delegate` itself, before any member is asked -/
-theorem mount_delegate_climbing {σ : Type} {ms : MState σ} {p : Str} {e : Err} (hn : '\x00' ∉ p)
-    (hv : validate p = .err e) : delegate ms p = .err .IllegalBackReference ∧ e = .IllegalBackReference := by
-  obtain ⟨h1, h2⟩ := normpath_of_validate_err hn hv
-  exact ⟨delegate_err h2, h1⟩
+/-- … and a path the reference's `validate` refuses — it contains NUL, or it climbs above the root — is refused
+by `_delegate` itself, with the SAME class (invalid characters first: /repo 48e26ed), before any member is asked -/
+theorem mount_delegate_invalid {σ : Type} {ms : MState σ} {p : Str} {e : Err}
+    (hv : validate p = .err e) : delegate ms p = .err e :=
+  delegate_err hv
 
 theorem disjoint_mem {mps : List (List Name)} (hd : Disjoint mps) {a b : List Name} (ha : a ∈ mps) (hb : b ∈ mps)
     (hne : a ≠ b) : Diverge a b := by
@@ -92,8 +93,8 @@ theorem mount_primSem {σ : Type} (D : FS State) (F : FS σ) (K : Kind σ) (mps 
     (hD : PrimRefines plainKind D) (hF : PrimRefines K F) :
     PrimSem (MountFs.sem D F) (glue K mps) (Inv K mps) (fixOf K mps) where
   std := fun s hs => ⟨hs.opn, hs.opn, (glue_wf_isDir hs).1, (glue_wf_isDir hs).2⟩
-  prim := fun s pr hs hu hnn hfix => prim_spec D F hD hF hs pr hu hnn hfix
-  validate := fun s p hs hnn => validate_spec D F hD hF hs p hnn
+  prim := fun s pr hs hu hfix => prim_spec D F hD hF hs pr hu hfix
+  validate := fun s p hs => validate_spec D F hD hF hs p
 
 /-! ## (b) MountFS preserves refinement -/
 
@@ -141,7 +142,7 @@ def proved : Op → Bool
 /-- **mount_preserves_refinement.**  Let the default filesystem `D` and the member filesystems `F` refine
 the reference on their own trees (`PrimRefines`: any implementations — MemoryFS as coded, a wrapper, another
 MountFS).  Then on every state of the invariant and for every proved operation that does not touch a
-fixture, on NUL-free path arguments (ANY spelling: `./`, `x/../`, doubled or trailing slashes, climbing
+fixture, on EVERY path argument (any spelling: `./`, `x/../`, doubled or trailing slashes, NUL, climbing
 paths), one call on the MountFS refines one call of the reference on the GLUED tree:
 * the invariant (hence the placeholders, the table, every member's invariant) and the fixtures are kept;
 * the glued tree afterwards is the reference's resulting tree — in particular unchanged on failure;
@@ -150,62 +151,61 @@ Cross-member `copy` / `move` (source in one member, destination in another or in
 instances: see (d). -/
 theorem mount_preserves_refinement {σ : Type} (D : FS State) (F : FS σ) (K : Kind σ) (mps : List (List Name))
     (hD : PrimRefines plainKind D) (hF : PrimRefines K F) (ms : MState σ) (hinv : Inv K mps ms) (op : Op)
-    (hpr : proved op = true) (hnn : noNulOp op) (hfix : ¬ removesFixture (fixOf K mps ms) op) :
+    (hpr : proved op = true) (hfix : ¬ removesFixture (fixOf K mps ms) op) :
     Inv K mps (MountFs.step D F ms op).1 ∧ fixOf K mps (MountFs.step D F ms op).1 = fixOf K mps ms ∧
     glue K mps (MountFs.step D F ms op).1 = (Ref.step (glue K mps ms) op).1 ∧
     OutRel (glue K mps ms) op (MountFs.step D F ms op).2 (Ref.step (glue K mps ms) op).2 := by
   have H := mount_primSem D F K mps hD hF
-  have one : ∀ pr : Prim, usedPrim pr = true → primOp pr = op → prog op = Route.one pr → '\x00' ∉ pr.path →
+  have one : ∀ pr : Prim, usedPrim pr = true → primOp pr = op → prog op = Route.one pr →
       Inv K mps (MountFs.step D F ms op).1 ∧ fixOf K mps (MountFs.step D F ms op).1 = fixOf K mps ms ∧
       glue K mps (MountFs.step D F ms op).1 = (Ref.step (glue K mps ms) op).1 ∧
       OutRel (glue K mps ms) op (MountFs.step D F ms op).2 (Ref.step (glue K mps ms) op).2 := by
-    intro pr hu hop hprog hn
-    have h := one_ok H pr ms hinv hu hn (by rw [hop]; exact fun hh => hfix (removes_of_hits hh))
+    intro pr hu hop hprog
+    have h := one_ok H pr ms hinv hu (by rw [hop]; exact fun hh => hfix (removes_of_hits hh))
     rw [hop] at h
     have hstep : MountFs.step D F ms op = (((Route.one pr).run (MountFs.sem D F) ms).1,
         ((Route.one pr).run (MountFs.sem D F) ms).2.1) := by
       cases op <;> simp only [proved, Bool.false_eq_true] at hpr <;> simp only [MountFs.step, hprog]
     rw [hstep]
     exact h
-  have nn1 : ∀ p, op.paths = [p] → '\x00' ∉ p := fun p hp => hnn p (by rw [hp]; simp)
   cases op <;> simp only [proved, Bool.false_eq_true] at hpr
-  case exists_ p => exact exists_ok H ms hinv p (nn1 p rfl)
-  case isdir p => exact one (.isdir p) rfl rfl rfl (nn1 p rfl)
-  case isfile p => exact one (.isfile p) rfl rfl rfl (nn1 p rfl)
-  case listdir p => exact one (.listdir p) rfl rfl rfl (nn1 p rfl)
-  case getsize p => exact one (.getsize p) rfl rfl rfl (nn1 p rfl)
-  case gettype p => exact one (.gettype p) rfl rfl rfl (nn1 p rfl)
-  case isempty p => exact one (.scanFirst p) rfl rfl rfl (nn1 p rfl)
-  case getinfo p => exact one (.getinfo p) rfl rfl rfl (nn1 p rfl)
-  case readbytes p => exact one (.readbytes p) rfl rfl rfl (nn1 p rfl)
-  case makedir p r => exact one (.makedir p r) rfl rfl rfl (nn1 p rfl)
-  case writebytes p d => exact one (.writebytes p d) rfl rfl rfl (nn1 p rfl)
-  case appendbytes p d => exact one (.openAppend p d) rfl rfl rfl (nn1 p rfl)
-  case create p w => exact create_ok H ms hinv p w (nn1 p rfl)
-  case touch p => exact touch_ok H ms hinv p (nn1 p rfl)
-  case settimes p => exact one (.setinfo p) rfl rfl rfl (nn1 p rfl)
-  case openbin p m => exact one (.openbin p m) rfl rfl rfl (nn1 p rfl)
-  case remove p => exact one (.remove p) rfl rfl rfl (nn1 p rfl)
-  case removedir p => exact one (.removedir p) rfl rfl rfl (nn1 p rfl)
+  case exists_ p => exact exists_ok H ms hinv p
+  case isdir p => exact one (.isdir p) rfl rfl rfl
+  case isfile p => exact one (.isfile p) rfl rfl rfl
+  case listdir p => exact one (.listdir p) rfl rfl rfl
+  case getsize p => exact one (.getsize p) rfl rfl rfl
+  case gettype p => exact one (.gettype p) rfl rfl rfl
+  case isempty p => exact one (.scanFirst p) rfl rfl rfl
+  case getinfo p => exact one (.getinfo p) rfl rfl rfl
+  case readbytes p => exact one (.readbytes p) rfl rfl rfl
+  case makedir p r => exact one (.makedir p r) rfl rfl rfl
+  case writebytes p d => exact one (.writebytes p d) rfl rfl rfl
+  case appendbytes p d => exact one (.openAppend p d) rfl rfl rfl
+  case create p w => exact create_ok H ms hinv p w
+  case touch p => exact touch_ok H ms hinv p
+  case settimes p => exact one (.setinfo p) rfl rfl rfl
+  case openbin p m => exact one (.openbin p m) rfl rfl rfl
+  case remove p => exact one (.remove p) rfl rfl rfl
+  case removedir p => exact one (.removedir p) rfl rfl rfl
   case move a b o =>
-    refine move_ok H ms hinv a b o (hnn a (by simp [Op.paths])) (hnn b (by simp [Op.paths])) ?_
+    refine move_ok H ms hinv a b o ?_
     intro cs hv hmem
     exact hfix ⟨cs, hv, hmem⟩
-  case copy a b o => exact copy_ok H ms hinv a b o (hnn a (by simp [Op.paths])) (hnn b (by simp [Op.paths]))
+  case copy a b o => exact copy_ok H ms hinv a b o
 
 /-- the same in the shape of `MemRefines.mem_refines_ref` / `WrapRefines.wrap_preserves_refinement`: same
 verdict; on success the reference's value and the reference's tree as the glued post-tree; on failure an
 unchanged glued tree and a class in `Ref.adm` of the glued tree -/
 theorem mount_refines_ref {σ : Type} (D : FS State) (F : FS σ) (K : Kind σ) (mps : List (List Name))
     (hD : PrimRefines plainKind D) (hF : PrimRefines K F) (ms : MState σ) (hinv : Inv K mps ms) (op : Op)
-    (hpr : proved op = true) (hnn : noNulOp op) (hfix : ¬ touchesFixture (fixOf K mps ms) op) :
+    (hpr : proved op = true) (hfix : ¬ touchesFixture (fixOf K mps ms) op) :
     ((MountFs.step D F ms op).2.isOk = (Ref.step (glue K mps ms) op).2.isOk) ∧
     ((Ref.step (glue K mps ms) op).2.isOk = true →
       (MountFs.step D F ms op).2 = (Ref.step (glue K mps ms) op).2 ∧
       glue K mps (MountFs.step D F ms op).1 = (Ref.step (glue K mps ms) op).1) ∧
     (∀ e, (MountFs.step D F ms op).2 = .err e →
       glue K mps (MountFs.step D F ms op).1 = glue K mps ms ∧ e ∈ adm (glue K mps ms) op) := by
-  obtain ⟨_, _, h3, h4⟩ := mount_preserves_refinement D F K mps hD hF ms hinv op hpr hnn
+  obtain ⟨_, _, h3, h4⟩ := mount_preserves_refinement D F K mps hD hF ms hinv op hpr
     (fun h => hfix (touches_of_removes h))
   cases hr : (Ref.step (glue K mps ms) op).2 with
   | ok v =>
@@ -326,7 +326,7 @@ theorem mount_prim_refines {σ : Type} (D : FS State) (F : FS σ) (K : Kind σ) 
     cases op <;> simp only [isMemberOp, Bool.false_eq_true] at hm <;> simp only [removesFixture] at h <;>
       simp only [hitsFixture]
     all_goals exact h
-  obtain ⟨h1, h2, h3, h4⟩ := mount_preserves_refinement D F K mps hD hF ms hinv op hpr hnn hrf
+  obtain ⟨h1, h2, h3, h4⟩ := mount_preserves_refinement D F K mps hD hF ms hinv op hpr hrf
   exact ⟨⟨h1, by rw [h2, hfx]⟩, rfl, h3, h4⟩
 
 
@@ -339,7 +339,7 @@ mount points below them, and the innermost members' fixtures below those. -/
 theorem mount_nested {σ : Type} (D D' : FS State) (F : FS σ) (K : Kind σ) (imps fx omps : List (List Name))
     (hD : PrimRefines plainKind D) (hD' : PrimRefines plainKind D') (hF : PrimRefines K F)
     (ms : MState (MState σ)) (hinv : Inv (mountKind K imps fx) omps ms) (op : Op)
-    (hpr : proved op = true) (hnn : noNulOp op) (hfix : ¬ touchesFixture (fixOf (mountKind K imps fx) omps ms) op) :
+    (hpr : proved op = true) (hfix : ¬ touchesFixture (fixOf (mountKind K imps fx) omps ms) op) :
     let W := MountFs.step D' (MountFs.step D F)
     let G := glue (mountKind K imps fx) omps ms
     ((W ms op).2.isOk = (Ref.step G op).2.isOk) ∧
@@ -347,13 +347,13 @@ theorem mount_nested {σ : Type} (D D' : FS State) (F : FS σ) (K : Kind σ) (im
       (W ms op).2 = (Ref.step G op).2 ∧ glue (mountKind K imps fx) omps (W ms op).1 = (Ref.step G op).1) ∧
     (∀ e, (W ms op).2 = .err e → glue (mountKind K imps fx) omps (W ms op).1 = G ∧ e ∈ adm G op) :=
   mount_refines_ref D' (MountFs.step D F) (mountKind K imps fx) omps hD' (mount_prim_refines D F K imps fx hD hF)
-    ms hinv op hpr hnn hfix
+    ms hinv op hpr hfix
 
 /-- … and with MemoryFS as coded everywhere (default trees and innermost members): the configuration the
 harness calls `mount-in-mount` -/
 theorem mount_nested_over_mem (imps fx omps : List (List Name)) (ms : MState (MState State))
     (hinv : Inv (mountKind plainKind imps fx) omps ms) (op : Op)
-    (hpr : proved op = true) (hnn : noNulOp op) (hfix : ¬ touchesFixture (fixOf (mountKind plainKind imps fx) omps ms) op) :
+    (hpr : proved op = true) (hfix : ¬ touchesFixture (fixOf (mountKind plainKind imps fx) omps ms) op) :
     let W := MountFs.step Mem.step (MountFs.step Mem.step Mem.step)
     let G := glue (mountKind plainKind imps fx) omps ms
     ((W ms op).2.isOk = (Ref.step G op).2.isOk) ∧
@@ -361,17 +361,17 @@ theorem mount_nested_over_mem (imps fx omps : List (List Name)) (ms : MState (MS
       (W ms op).2 = (Ref.step G op).2 ∧ glue (mountKind plainKind imps fx) omps (W ms op).1 = (Ref.step G op).1) ∧
     (∀ e, (W ms op).2 = .err e → glue (mountKind plainKind imps fx) omps (W ms op).1 = G ∧ e ∈ adm G op) :=
   mount_nested Mem.step Mem.step Mem.step plainKind imps fx omps mem_prim_refines mem_prim_refines mem_prim_refines
-    ms hinv op hpr hnn hfix
+    ms hinv op hpr hfix
 
 /-- **MountFS over MemoryFS members as coded refines the reference** (the harness's `mount`, `mount-root`) -/
 theorem mount_over_mem_refines_ref (mps : List (List Name)) (ms : MState State) (hinv : Inv plainKind mps ms) (op : Op)
-    (hpr : proved op = true) (hnn : noNulOp op) (hfix : ¬ touchesFixture (fixOf plainKind mps ms) op) :
+    (hpr : proved op = true) (hfix : ¬ touchesFixture (fixOf plainKind mps ms) op) :
     let W := MountFs.step Mem.step Mem.step
     let G := glue plainKind mps ms
     ((W ms op).2.isOk = (Ref.step G op).2.isOk) ∧
     ((Ref.step G op).2.isOk = true → (W ms op).2 = (Ref.step G op).2 ∧ glue plainKind mps (W ms op).1 = (Ref.step G op).1) ∧
     (∀ e, (W ms op).2 = .err e → glue plainKind mps (W ms op).1 = G ∧ e ∈ adm G op) :=
-  mount_refines_ref Mem.step Mem.step plainKind mps mem_prim_refines mem_prim_refines ms hinv op hpr hnn hfix
+  mount_refines_ref Mem.step Mem.step plainKind mps mem_prim_refines mem_prim_refines ms hinv op hpr hfix
 
 /-! ## (d) cross-member `copy` / `move` -/
 
@@ -383,7 +383,7 @@ mount point and, for `move`, is gone below the first), admissible class and unch
 Instance of (b): nothing in its proof depends on which members own the two paths. -/
 theorem mount_cross_member_copy_move {σ : Type} (D : FS State) (F : FS σ) (K : Kind σ) (mps : List (List Name))
     (hD : PrimRefines plainKind D) (hF : PrimRefines K F) (ms : MState σ) (hinv : Inv K mps ms)
-    (src dst : Str) (ow mv : Bool) (hn1 : '\x00' ∉ src) (hn2 : '\x00' ∉ dst)
+    (src dst : Str) (ow mv : Bool)
     (mp1 mp2 r1 r2 : List Name) (_h1 : mp1 ∈ mps) (_h2 : mp2 ∈ mps) (_hne : mp1 ≠ mp2)
     (_hv1 : validate src = .ok (mp1 ++ r1)) (_hv2 : validate dst = .ok (mp2 ++ r2))
     (hfix : mv = true → ∀ cs, validate src = .ok cs → cs ∉ fixOf K mps ms) :
@@ -394,10 +394,6 @@ theorem mount_cross_member_copy_move {σ : Type} (D : FS State) (F : FS σ) (K :
       (MountFs.step D F ms op).2 = (Ref.step G op).2 ∧ glue K mps (MountFs.step D F ms op).1 = (Ref.step G op).1) ∧
     (∀ e, (MountFs.step D F ms op).2 = .err e → glue K mps (MountFs.step D F ms op).1 = G ∧ e ∈ adm G op) := by
   intro op G
-  have hnn : noNulOp op := by
-    intro p hp
-    cases mv <;> simp only [op, Bool.false_eq_true, if_false, if_true, Op.paths, List.mem_cons, List.not_mem_nil,
-      or_false] at hp <;> rcases hp with rfl | rfl <;> assumption
   have hpr : proved op = true := by cases mv <;> rfl
   have hrf : ¬ removesFixture (fixOf K mps ms) op := by
     cases mv with
@@ -406,7 +402,7 @@ theorem mount_cross_member_copy_move {σ : Type} (D : FS State) (F : FS σ) (K :
       simp only [op, if_true, removesFixture]
       rintro ⟨cs, hv, hm⟩
       exact hfix rfl cs hv hm
-  obtain ⟨_, _, h3, h4⟩ := mount_preserves_refinement D F K mps hD hF ms hinv op hpr hnn hrf
+  obtain ⟨_, _, h3, h4⟩ := mount_preserves_refinement D F K mps hD hF ms hinv op hpr hrf
   cases hr : (Ref.step G op).2 with
   | ok v =>
     have := h4.1 (by rw [hr]; rfl)
@@ -468,16 +464,13 @@ theorem demo_inv : Inv plainKind demoMps demo ∧ glue plainKind demoMps demo = 
 conclusion is what one expects: the file arrives below the second mount point and leaves the first -/
 example :
     let op : Op := .move "m1/f".toList "./m2//deep/../deep/n".toList false
-    proved op = true ∧ noNulOp op ∧ ¬ touchesFixture (fixOf plainKind demoMps demo) op ∧
+    proved op = true ∧ ¬ touchesFixture (fixOf plainKind demoMps demo) op ∧
     (mstep demo op).2 = .ok .unit ∧
     (mstep (mstep demo op).1 (.readbytes "m2/deep/n".toList)).2 = .ok (.bytes [3]) ∧
     (mstep (mstep demo op).1 (.exists_ "m1/f".toList)).2 = .ok (.bool false) ∧
     (Ref.step demoGlue op).2 = .ok .unit := by
-  refine ⟨rfl, ?_, ?_, by decide, by decide, by decide, by decide⟩
-  · intro p hp
-    simp only [Op.paths, List.mem_cons, List.not_mem_nil, or_false] at hp
-    rcases hp with rfl | rfl <;> decide
-  · rw [demo_inv.2.2]; decide
+  refine ⟨rfl, ?_, by decide, by decide, by decide, by decide⟩
+  rw [demo_inv.2.2]; decide
 
 /-! ## (c) operations that DO touch a fixture: what the code does (documented limits of a composition,
 steered around by the harness; not findings — the property text exempts mount points) -/
@@ -524,31 +517,69 @@ theorem mount_movedir_fixture_counterexample :
 example : (mstep demo (.move "m1".toList "n".toList true)).2 = .err .FileExpected ∧
     (Ref.step demoGlue (.move "m1".toList "n".toList true)).2 = .err .FileExpected := by decide
 
-/-! ## NUL in a path (open finding `C01/mountfs-nul-normalised-away`) -/
+/-! ## NUL in a path (finding `C01/mountfs-nul-normalised-away`, FIXED in /repo 48e26ed) -/
 
-/-- **FINDING** — a path whose NUL disappears in normalisation and that is routed to a MOUNTED filesystem is
-accepted: `_delegate` hands the member the remainder of the NORMALISED path, so nobody ever sees the NUL.
-`exists("m1/z\0/../f")` is `True` (and `writebytes` creates a file) where the reference — and MemoryFS, OSFS,
-SubFS — raise InvalidCharsInPath.  This is why (b) carries `noNulOp`. -/
-theorem mount_nul_normalised_away_counterexample :
-    (mstep demo (.exists_ "m1/z\x00/../f".toList)).2 = .ok (.bool true) ∧
-    (mstep demo (.writebytes "m1/z\x00/../n".toList [5])).2 = .ok .unit ∧
+/-- **an invalid path argument is refused as the reference refuses it** — NUL anywhere in it (whatever it
+normalises to, whichever filesystem it would be routed to) or climbing above the root: the reference's class,
+nothing changed.  Consequence of (b), which no longer needs a NUL-free hypothesis.  (`openbin` aside: its mode
+is validated even before the path.) -/
+theorem mount_invalid_path_refused {σ : Type} (D : FS State) (F : FS σ) (K : Kind σ) (mps : List (List Name))
+    (hD : PrimRefines plainKind D) (hF : PrimRefines K F) (ms : MState σ) (hinv : Inv K mps ms) (op : Op)
+    (p : Str) (hp : op.paths = [p]) (hpr : proved op = true) (hno : ∀ q m, op ≠ .openbin q m)
+    (e : Err) (hv : validate p = .err e) :
+    (MountFs.step D F ms op).2 = .err e ∧ glue K mps (MountFs.step D F ms op).1 = glue K mps ms := by
+  have hrf : ¬ removesFixture (fixOf K mps ms) op := by
+    intro h
+    cases op <;> simp only [removesFixture] at h
+    all_goals
+      simp only [Op.paths, List.cons.injEq, and_true, reduceCtorEq, and_false] at hp
+    all_goals
+      subst hp
+      obtain ⟨cs, h1, _⟩ := h
+      rw [hv] at h1; cases h1
+  obtain ⟨_, _, h3, h4⟩ := mount_preserves_refinement D F K mps hD hF ms hinv op hpr hrf
+  have hGc : (glue K mps ms).closed = false := hinv.opn
+  have hstep : Ref.step (glue K mps ms) op = fail (glue K mps ms) e := by
+    rw [QueryLemmas.step_one _ op p hGc hp hno, hv]
+  have hadm : adm (glue K mps ms) op = [e] := by
+    rw [QueryLemmas.adm_one _ op p hGc hp hno, hv]
+  rw [hstep] at h3 h4
+  obtain ⟨e2, g1, g2, _⟩ := h4.2 e rfl
+  rw [hadm] at g2
+  simp only [List.mem_singleton] at g2
+  subst g2
+  exact ⟨g1, h3⟩
+
+/-- REPAIRED (/repo 48e26ed; was `mount_nul_normalised_away_counterexample`): a path whose NUL disappears in
+normalisation and that is routed to a MOUNTED filesystem is refused like everywhere else — `_delegate` looks at
+the raw path's characters before normalising.  (Before the repair `exists("m1/z\0/../f")` was `True` and
+`writebytes` created the file; `removedir` normalised even before `_delegate`.) -/
+theorem mount_nul_repaired :
+    (mstep demo (.exists_ "m1/z\x00/../f".toList)).2 = .err .InvalidCharsInPath ∧
+    (mstep demo (.writebytes "m1/z\x00/../n".toList [5])).2 = .err .InvalidCharsInPath ∧
+    (mstep demo (.remove "m1/z\x00/../f".toList)).2 = .err .InvalidCharsInPath ∧
+    (mstep demo (.removedir "m1/z\x00/../d".toList)).2 = .err .InvalidCharsInPath ∧
+    (mstep demo (.copy "top".toList "m1/z\x00/../n".toList true)).2 = .err .InvalidCharsInPath ∧
     (Ref.step demoGlue (.exists_ "m1/z\x00/../f".toList)).2 = .err .InvalidCharsInPath ∧
-    (Ref.step demoGlue (.writebytes "m1/z\x00/../n".toList [5])).2 = .err .InvalidCharsInPath := by
+    (Ref.step demoGlue (.writebytes "m1/z\x00/../n".toList [5])).2 = .err .InvalidCharsInPath ∧
+    (mstep (mstep demo (.writebytes "m1/z\x00/../n".toList [5])).1 (.exists_ "m1/n".toList)).2 = .ok (.bool false) := by
   decide
 
-/-- … while the SAME MountFS refuses the path when `_delegate` routes it to `default_fs`, which receives
-the RAW argument and validates it -/
+/-- a path routed to `default_fs` was refused before the repair too (it receives the RAW argument and
+validates it); it still is, now by `_delegate` itself -/
 theorem mount_nul_default_refused :
     (mstep demo (.exists_ "q\x00/../top".toList)).2 = .err .InvalidCharsInPath ∧
     (mstep demo (.exists_ "m1/f\x00".toList)).2 = .err .InvalidCharsInPath := by
   decide
 
-/-- class only (both fail, nothing changes): a path with NUL that also climbs is refused by `normpath` inside
-`_delegate` (IllegalBackReference) before any `validatepath` looks at its characters -/
-theorem mount_nul_climb_counterexample :
-    (mstep demo (.exists_ "z\x00/../..".toList)).2 = .err .IllegalBackReference ∧
-    (Ref.step demoGlue (.exists_ "z\x00/../..".toList)).2 = .err .InvalidCharsInPath := by
+/-- REPAIRED with the same commit (was `mount_nul_climb_counterexample`, class only): a path with NUL that also
+climbs is refused for its characters (InvalidCharsInPath, the reference's class), no longer by `normpath` inside
+`_delegate` (IllegalBackReference) -/
+theorem mount_nul_climb_repaired :
+    (mstep demo (.exists_ "z\x00/../..".toList)).2 = .err .InvalidCharsInPath ∧
+    (mstep demo (.removedir "z\x00/..".toList)).2 = .err .InvalidCharsInPath ∧
+    (Ref.step demoGlue (.exists_ "z\x00/../..".toList)).2 = .err .InvalidCharsInPath ∧
+    (Ref.step demoGlue (.removedir "z\x00/..".toList)).2 = .err .InvalidCharsInPath := by
   decide
 
 /-! ## the walker-based defaults and `makedirs` -/
